@@ -18,6 +18,7 @@ void run_C04(vh::Ctx& c) {
     unsigned d = 2 + (unsigned)((idx / 7) % 5);
     unsigned nx = 1 + r.pick(5), nr = 1 + r.pick(3), ns = r.pick(4);
     // keep the expensive corners affordable
+    if (idx % 23 == 5) { nx = 8 + r.pick(40); nr = 1 + r.pick(5); ns = r.pick(7); c.count("large_systems"); }   // the layout arithmetic for many nodes / matrices / scalars
     if (sm.order == 2 && nx * nr > 6) { nx = 2; nr = 2; }
     double ti = tinis[r.pick(4)];
     RhoFamily fam = (mask & OTHER) ? MANUFACTURED : COMMUTING;
